@@ -65,9 +65,9 @@ for pid in ALL:
         "thorough_cmd": f"bin/check {pid} --tier thorough",
         "evidence_file": f"/verif/evidence/{pid}.json",
         "replay_cmd_template": "bin/check --replay {path}",
-        "engine": "verus-x+kani" if any(units[n].get("engine") == "kani" for n in us) else "verus-x",
+        "engine": ("verus-x+kani" if any(units[n].get("engine") == "kani" for n in us) else "verus-x") + ("+bounded(cargo test)" if any(units[n].get("engine") == "bounded" for n in us) else ""),
         "level_claimed": {"category": "proof", "text": c["text"], "design_ref": c["ref"]},
-        "level_note": c["note"] + " Units: " + ", ".join(us) + ".",
+        "level_note": c["note"] + (" The SQL text of the SQLite back end is outside every contract; for it a BOUNDED stand-in (unit sqlite_bounded: the real SQLite and the real in-memory back end executed side by side on every scenario of a small stated scope, compared with the storage contract) runs in the same check; it is labelled bounded in the evidence (coverage.bounded_checks) and is not counted among the proved obligations." if any(units[n].get("engine") == "bounded" for n in us) else "") + " Units: " + ", ".join(us) + ".",
         "technique": c["technique"],
     })
 na = [{"property_id": p, "reason": r} for p, r in NA.items()]
